@@ -100,6 +100,10 @@ Lemma src_SaveStoreWeight_ok : src_SaveStoreWeight =
   ["v4, v5 := v0.Load(v0.storeLeaderWeightPath(v1))"; "if v5 != nil { return v5 }"; "v6, v5 := v0.Load(v0.storeRegionWeightPath(v1))"; "if v5 != nil { return v5 }"; "v7 := strconv.FormatFloat(v2, 'f', -1, 64)"; "v8 := strconv.FormatFloat(v3, 'f', -1, 64)"; "v5 = v0.Save(v0.storeLeaderWeightPath(v1), v7)"; "if v5 == nil { v5 = v0.Save(v0.storeRegionWeightPath(v1), v8) }"; "if v5 != nil { v0.restoreWeight(v0.storeLeaderWeightPath(v1), v4) v0.restoreWeight(v0.storeRegionWeightPath(v1), v6) }"; "return v5"].
 Proof. reflexivity. Qed.
 
+Lemma src_CheckAndPutLoadedRegion_ok : src_CheckAndPutLoadedRegion =
+  ["v3 := v0.CheckAndPutRegion(v1)"; "if len(v3) == 1 && v3[0] == v1 { if v4 := v0.GetRegion(v1.GetID()); v4 != nil { if v5 := v2(v4.GetMeta()); v5 != nil { } return nil } }"; "v6 := v3[:0:0]"; "for _, v7 := range v3 { if v7.GetID() <= v1.GetID() { v6 = append(v6, v7) } }"; "return v6"].
+Proof. reflexivity. Qed.
+
 Lemma src_mem_LoadRange_ok : src_mem_LoadRange =
   ["v0.RLock()"; "defer v0.RUnlock()"; "v4 := make([]string, 0, v3)"; "v5 := make([]string, 0, v3)"; "v0.tree.AscendRange(memoryKVItem{v1, """"}, memoryKVItem{v2, """"}, func(v6 btree.Item) bool { v4 = append(v4, v6.(memoryKVItem).key) v5 = append(v5, v6.(memoryKVItem).value) if v3 > 0 { return len(v4) < v3 } return true })"; "return v4, v5, nil"].
 Proof. reflexivity. Qed.
